@@ -5,6 +5,7 @@ package main
 
 import (
 	"fmt"
+	"os"
 	"go/token"
 	"go/types"
 	"strings"
@@ -196,6 +197,8 @@ func (w *Worker) visibleSig(s *State, f *Frame) (sig OpSig, visible bool, enable
 	return OpSig{}, false, true
 }
 
+var traceSched = os.Getenv("SYMGO_TRACE_SCHED") != ""
+
 func independent(a, b OpSig) bool {
 	if a.kind == "yield" || b.kind == "yield" {
 		return true // a yield changes nothing another thread can observe
@@ -327,6 +330,9 @@ func (w *Worker) schedule(s *State) bool {
 		ns.grant = true
 		ns.sleep = mkSleep(i)
 		ns.sched = append(ns.sched, live[i].t)
+		if traceSched {
+			ns.schedOps = append(ns.schedOps, opName(w, ns, live[i].t))
+		}
 		wake(ns, live[i])
 		s.job.fork()
 		w.eng.push(ns)
@@ -335,6 +341,9 @@ func (w *Worker) schedule(s *State) bool {
 	s.switchTo(live[0].t)
 	s.grant = true
 	s.sched = append(s.sched, live[0].t)
+	if traceSched {
+		s.schedOps = append(s.schedOps, opName(w, s, live[0].t))
+	}
 	wake(s, live[0])
 	return true
 }
@@ -363,4 +372,19 @@ func progPoint(th *Thread, st *State, t int) string {
 	}
 	f := fr[len(fr)-1]
 	return fmt.Sprintf("%p/%d/%d", f.fn, f.block.Index, f.ip)
+}
+
+func opName(w *Worker, s *State, t int) string {
+	fr := s.threads[t].frames
+	if t == s.cur {
+		fr = s.frames
+	}
+	if len(fr) == 0 {
+		return "?"
+	}
+	n, _, _ := w.pendingCall(s, fr[len(fr)-1])
+	if i := strings.LastIndex(n, "."); i >= 0 {
+		n = n[i+1:]
+	}
+	return fmt.Sprintf("%d:%s@%s", t, n, fr[len(fr)-1].fn.Name())
 }
